@@ -233,3 +233,34 @@ func constOf(o types.Object, dst *int64) int64 {
 	}
 	return 0
 }
+
+// nilCompare returns the non-nil operand of `x OP nil` / `nil OP x` for the
+// given operator, in either operand order.
+func nilCompare(f *eng.Fn, e ast.Expr, op token.Token) (ast.Expr, bool) {
+	be, ok := ast.Unparen(e).(*ast.BinaryExpr)
+	if !ok || be.Op != op {
+		return nil, false
+	}
+	if f.Norm(be.Y, nil) == "nil" {
+		return be.X, true
+	}
+	if f.Norm(be.X, nil) == "nil" {
+		return be.Y, true
+	}
+	return nil, false
+}
+
+// unNot strips !( ... ) wrappers, returning the inner expression and whether
+// an odd number of negations was removed.
+func unNot(e ast.Expr) (ast.Expr, bool) {
+	neg := false
+	for {
+		e = ast.Unparen(e)
+		u, ok := e.(*ast.UnaryExpr)
+		if !ok || u.Op != token.NOT {
+			return e, neg
+		}
+		neg = !neg
+		e = u.X
+	}
+}
